@@ -15,3 +15,41 @@ Print Assumptions C11_distinct_iff_increasing.
 Theorem C11_distinct_iff_count : forall (X : Type) (S : X -> Prop) (L : list X) (k : nat), NoDup L -> (forall x : X, In x L <-> S x) -> (exists l : list X, Datatypes.length l = k /\ NoDup l /\ Forall S l) <-> k <= Datatypes.length L.
 Proof. exact (@Count.distinct_iff_count). Qed.
 Print Assumptions C11_distinct_iff_count.
+
+From NGO Require Import Sem.Sym Sem.Sat Link.Equiv Link.SymmetrySem.
+
+Theorem C11_neq_to_lt_rule_sound : forall sym_lt : Ast.sym -> Ast.sym -> Prop, sym_order sym_lt -> forall (G : list string) (H T : interp) (h : Ast.head) (B : list Ast.bodyelem) (r : string -> string) (x y : string), body_inv sym_lt G r B -> r x = y -> r y = x -> (forall z : string, In z (Ast.vars_head h) -> r z = z) -> rule_sat sym_lt G H T h (B ++ Ast.BLit (ne_lit x y) :: nil) <-> rule_sat sym_lt G H T h (B ++ Ast.BLit (lt_lit x y) :: nil).
+Proof. exact (@SymmetrySem.neq_to_lt_rule_sound_gen). Qed.
+Print Assumptions C11_neq_to_lt_rule_sound.
+
+Theorem C11_neq_to_lt_program_sound : forall sym_lt : Ast.sym -> Ast.sym -> Prop, sym_order sym_lt -> forall (P1 P2 : list Ast.stmt) (ln : nat) (h : Ast.head) (B : list Ast.bodyelem) (r : string -> string) (x y : string), (forall G : list string, body_inv sym_lt G r B) -> r x = y -> r y = x -> (forall z : string, In z (Ast.vars_head h) -> r z = z) -> equiv_all sym_lt (P1 ++ Ast.SRule ln h (B ++ Ast.BLit (ne_lit x y) :: nil) :: P2) (P1 ++ Ast.SRule ln h (B ++ Ast.BLit (lt_lit x y) :: nil) :: P2).
+Proof. exact (@SymmetrySem.neq_to_lt_program_sound). Qed.
+Print Assumptions C11_neq_to_lt_program_sound.
+
+Theorem C11_all_neq_to_chain_rule_sound : forall sym_lt : Ast.sym -> Ast.sym -> Prop, sym_order sym_lt -> forall (G : list string) (H T : interp) (h : Ast.head) (B : list Ast.bodyelem) (xs : list string), NoDup xs -> (forall a b : string, In a xs -> In b xs -> exists r : string -> string, (body_inv sym_lt G r B /\ (forall z : string, In z (Ast.vars_head h) -> r z = z)) /\ (forall z : string, In z xs -> r z = sw a b z)) -> rule_sat sym_lt G H T h (B ++ pairs_ne xs) <-> rule_sat sym_lt G H T h (B ++ chain_lt xs).
+Proof. exact (@SymmetrySem.all_neq_to_chain_rule_sound_gen). Qed.
+Print Assumptions C11_all_neq_to_chain_rule_sound.
+
+Theorem C11_all_neq_to_chain_program_sound : forall sym_lt : Ast.sym -> Ast.sym -> Prop, sym_order sym_lt -> forall (P1 P2 : list Ast.stmt) (ln : nat) (h : Ast.head) (B : list Ast.bodyelem) (xs : list string), NoDup xs -> (forall (G : list string) (a b : string), In a xs -> In b xs -> body_inv sym_lt G (sw a b) B) -> (forall z : string, In z xs -> ~ In z (Ast.vars_head h)) -> equiv_all sym_lt (P1 ++ Ast.SRule ln h (B ++ pairs_ne xs) :: P2) (P1 ++ Ast.SRule ln h (B ++ chain_lt xs) :: P2).
+Proof. exact (@SymmetrySem.all_neq_to_chain_program_sound). Qed.
+Print Assumptions C11_all_neq_to_chain_program_sound.
+
+Theorem C11_mixed_sign_refuted : forall sym_lt : Ast.sym -> Ast.sym -> Prop, sym_order sym_lt -> forall G : list string, ~ rule_sat sym_lt G mixed_T mixed_T bad_head (mixed_body ++ Ast.BLit (ne_lit "X" "Y") :: nil) /\ rule_sat sym_lt G mixed_T mixed_T bad_head (mixed_body ++ Ast.BLit (lt_lit "X" "Y") :: nil).
+Proof. exact (@SymmetrySem.mixed_sign_refuted). Qed.
+Print Assumptions C11_mixed_sign_refuted.
+
+Theorem C11_cyclic_order_unsat : forall sym_lt : Ast.sym -> Ast.sym -> Prop, sym_order sym_lt -> forall a b c : Ast.sym, ~ (sym_lt a b /\ sym_lt b c /\ sym_lt c a).
+Proof. exact (@SymmetrySem.cyclic_order_unsat). Qed.
+Print Assumptions C11_cyclic_order_unsat.
+
+Theorem C11_exA_pass_sound : forall sym_lt : Ast.sym -> Ast.sym -> Prop, sym_order sym_lt -> exists Q : list Ast.stmt, Symmetry.execute (base_stmt :: exA_in :: nil) nil (base_stmt :: exA_in :: nil) = Ast.Ok Q /\ equiv_all sym_lt (base_stmt :: exA_in :: nil) Q.
+Proof. exact (@SymmetrySem.exA_pass_sound). Qed.
+Print Assumptions C11_exA_pass_sound.
+
+Theorem C11_exB_pass_sound : forall sym_lt : Ast.sym -> Ast.sym -> Prop, sym_order sym_lt -> exists Q : list Ast.stmt, Symmetry.execute (base_stmt :: exB_in :: nil) nil (base_stmt :: exB_in :: nil) = Ast.Ok Q /\ equiv_all sym_lt (base_stmt :: exB_in :: nil) Q.
+Proof. exact (@SymmetrySem.exB_pass_sound). Qed.
+Print Assumptions C11_exB_pass_sound.
+
+Theorem C11_exC_pass_sound : forall sym_lt : Ast.sym -> Ast.sym -> Prop, sym_order sym_lt -> exists Q : list Ast.stmt, Symmetry.execute (base_stmt :: exC_in :: nil) nil (base_stmt :: exC_in :: nil) = Ast.Ok Q /\ equiv_all sym_lt (base_stmt :: exC_in :: nil) Q.
+Proof. exact (@SymmetrySem.exC_pass_sound). Qed.
+Print Assumptions C11_exC_pass_sound.
